@@ -1,4 +1,10 @@
 // code_stmt.go — calls, statements, functions.
+//
+// Builtins translated here besides len/cap/copy/make/append (code_slice.go) and clear
+// (code_gslice.go): min(a, b, …) / max(a, b, …) on numbers of one type ↦ nested
+// `if a ≤ b then a else b` (minMaxCall) — only when the package does not declare a function of
+// that name itself (the root package has its own `min`, which is translated as a function).
+// A local `const` declaration is skipped when code_desugar.go has replaced all its uses.
 package main
 
 import (
@@ -63,6 +69,11 @@ func (c *codegen) call(x *ast.CallExpr, want gtype) (string, gtype) {
 		case "append":
 			if c.phase2 {
 				return c.appendCall(x, "")
+			}
+		case "min", "max":
+			// the builtin of Go 1.21 — unless the package declares its own function of that name
+			if c.fns[fnKey{"", f.Name}] == nil {
+				return c.minMaxCall(f.Name, x, want)
 			}
 		}
 		if ri := c.reflOf(f.Name); ri != nil {
@@ -154,6 +165,52 @@ func (c *codegen) call(x *ast.CallExpr, want gtype) (string, gtype) {
 	}
 	c.fail(x, "call %s", c.src(x))
 	return "", gtype{}
+}
+
+// minMaxCall translates the builtins min(a, b, …) / max(a, b, …) on numbers of one type:
+// `if a ≤ b then a else b` (for more arguments nested from the left, like Go).  The operands
+// are pure Lean terms (whatever may panic in them has been hoisted), so repeating them is fine.
+func (c *codegen) minMaxCall(name string, x *ast.CallExpr, want gtype) (string, gtype) {
+	if len(x.Args) < 2 || x.Ellipsis.IsValid() {
+		c.fail(x, "%s with %d arguments", name, len(x.Args))
+	}
+	// every argument is translated once (what may panic in it is hoisted once, in source order);
+	// the untyped constants adopt the type of the others
+	t := want
+	vals := make([]string, len(x.Args))
+	isConst := make([]bool, len(x.Args))
+	typed := false
+	for i, a := range x.Args {
+		if _, at, ok := c.cfold(a); ok && at.kind == kUntyped {
+			isConst[i] = true
+			continue
+		}
+		s, at := c.expr(a, gtype{}, false)
+		if typed && !at.eq(t) {
+			c.fail(a, "argument %d of %s has type %s, want %s", i+1, name, at, t)
+		}
+		vals[i], t, typed = s, at, true
+	}
+	if !t.numeric() {
+		c.fail(x, "%s on %s", name, t)
+	}
+	var acc string
+	for i, a := range x.Args {
+		s := vals[i]
+		if isConst[i] {
+			s, _ = c.expr(a, t, false)
+		}
+		if i == 0 {
+			acc = s
+			continue
+		}
+		op := "≤"
+		if name == "max" {
+			op = "≥"
+		}
+		acc = "if " + paren(acc) + " " + op + " " + paren(s) + " then " + paren(acc) + " else " + paren(s)
+	}
+	return acc, t
 }
 
 // callFn emits the application of a whitelisted function.
@@ -488,6 +545,10 @@ func (c *codegen) seq(list []ast.Stmt, k cont) []string {
 		}
 		return c.seq(rest, k)
 	case *ast.RangeStmt:
+		if call := c.clearIdiom(x); call != nil {
+			// code_gslice.go: the zeroing loop is clear(P)
+			return c.seq(append([]ast.Stmt{&ast.ExprStmt{X: call}}, rest...), k)
+		}
 		if c.phase2 {
 			return c.loopStmt(x, x.Body, rest, k)
 		}
@@ -809,6 +870,9 @@ func (c *codegen) decl(x *ast.DeclStmt) []string {
 		c.localTypeDecl(gd)
 		return nil
 	}
+	if ok && gd.Tok == token.CONST && desugaredConsts[gd] {
+		return nil // code_desugar.go: every use has been replaced by the constant expression
+	}
 	if !ok || gd.Tok != token.VAR {
 		c.fail(x, "local %s declaration", gd.Tok)
 	}
@@ -1058,6 +1122,9 @@ func (c *codegen) exprStmt(x *ast.ExprStmt) []string {
 			if f.Name == "copy" {
 				c.copyCall(call) // the count is dropped, the effect is in the hoisted lines
 				return nil
+			}
+			if f.Name == "clear" && c.phase3 && c.fns[fnKey{"", "clear"}] == nil {
+				return c.clearStmt(call, x) // code_gslice.go
 			}
 			if c.whiteSet[fnKey{"", f.Name}] && c.reflOf(f.Name) == nil {
 				return c.callStmt2(x, call)
